@@ -16,7 +16,8 @@ tvars == <<l, rej, engines, offsets, pkg>>
 
 \* does the system action named by the event accept it (pure part) ...
 StepOK(e, idx) ==
-  CASE e.ev = "BooleanOp" -> BooleanOpOK(e, idx)
+  CASE ~Tame(e) -> Chk(PrimaryClause(e), idx, FALSE)
+    [] e.ev = "BooleanOp" -> BooleanOpOK(e, idx)
     [] e.ev = "RectClip" -> RectClipOK(e, idx)
     [] e.ev = "RectClipLines" -> RectClipLinesOK(e, idx)
     [] e.ev = "Measure" -> MeasureOK(e, idx)
